@@ -77,6 +77,14 @@ def contiguous : Pol → Bool
   | mat _ m s => s == m
   | prod p1 p2 st => st == p2.minSize && p1.contiguous && p2.contiguous
 
+/-- executable form of the well-formedness predicate `Pol.WF` of Lemmas.lean (`wfb_iff`): positive extents,
+`Stride >= M` for matrices, `Stride >= getUnderlyingArrayMinimalSize<P2>()` for products -/
+def wfb : Pol → Bool
+  | scalar => true
+  | vec n s => decide (1 ≤ n) && decide (1 ≤ s)
+  | mat n m s => decide (1 ≤ n) && decide (1 ≤ m) && decide (m ≤ s)
+  | prod p1 p2 st => p1.wfb && p2.wfb && decide (p2.minSize ≤ st)
+
 end Pol
 
 /-! ## cell maps of views (offsets in scalar cells from the pointer the view was built on) -/
